@@ -67,6 +67,8 @@ pub enum Op {
     ReplaceData { node: S, off: usize, cnt: usize, data: String },
     Substring { node: S, off: usize, cnt: usize },
     SplitText { node: S, off: usize, out: S },
+    /// Element::normalize(): adjacent Text children in the whole subtree become one Text node
+    Normalize { el: S },
     Nav { node: S, which: NavKind, out: S },
     ChildIter { node: S, out: S },
     ChildList { node: S, out: S },
@@ -232,6 +234,7 @@ impl Step {
             }
             Op::Substring { node, off, cnt } => W::new(t, "substring_data").n("node", *node).n("off", *off).n("cnt", *cnt),
             Op::SplitText { node, off, out } => W::new(t, "split_text").n("node", *node).n("off", *off).n("out", *out),
+            Op::Normalize { el } => W::new(t, "normalize").n("el", *el),
             Op::Nav { node, which, out } => W::new(t, "nav").n("node", *node).t("which", which.name()).n("out", *out),
             Op::ChildIter { node, out } => W::new(t, "child_iter").n("node", *node).n("out", *out),
             Op::ChildList { node, out } => W::new(t, "child_list").n("node", *node).n("out", *out),
@@ -308,6 +311,7 @@ impl Step {
             "replace_data" => Op::ReplaceData { node: n("node")?, off: n("off")?, cnt: n("cnt")?, data: t("data")? },
             "substring_data" => Op::Substring { node: n("node")?, off: n("off")?, cnt: n("cnt")? },
             "split_text" => Op::SplitText { node: n("node")?, off: n("off")?, out: n("out")? },
+            "normalize" => Op::Normalize { el: n("el")? },
             "nav" => Op::Nav { node: n("node")?, which: NavKind::parse(&t("which")?)?, out: n("out")? },
             "child_iter" => Op::ChildIter { node: n("node")?, out: n("out")? },
             "child_list" => Op::ChildList { node: n("node")?, out: n("out")? },
@@ -384,6 +388,7 @@ impl Step {
             Op::ReplaceData { .. } => "replace_data",
             Op::Substring { .. } => "substring_data",
             Op::SplitText { .. } => "split_text",
+            Op::Normalize { .. } => "normalize",
             Op::Nav { .. } => "nav",
             Op::ChildIter { .. } => "child_iter",
             Op::ChildList { .. } => "child_list",
@@ -440,6 +445,7 @@ impl Step {
                 | Op::DeleteData { .. }
                 | Op::ReplaceData { .. }
                 | Op::SplitText { .. }
+                | Op::Normalize { .. }
                 | Op::DtMap { .. }
         )
     }
